@@ -126,6 +126,15 @@ def decode (C : Crypto) (ctx : Ctx) (mode : Mode) (now : Nat) (b : Bytes) : Res 
     | .panic => .panic
     | _ => .err
 
+/-- `SessionCodec::decode` (server side): an empty datagram is nothing (`Ok(None)`), anything else is decoded whole -/
+def sessionDecode (C : Crypto) (ctx : Ctx) (mode : Mode) (now : Nat) (b : Bytes) : Res (Option (Bytes × Addr × Session)) :=
+  if b.isEmpty then .ok none else
+  match decode C ctx mode now b with
+  | .ok x => .ok (some x)
+  | .more => .more
+  | .panic => .panic
+  | .err => .err
+
 /-! ### the client's per-binding codec -/
 
 /-- `DatagramPacketCodec`: own session (ids), the anti-replay window for server packets -/
